@@ -404,6 +404,10 @@ pub struct VaultCase {
     pub path: VaultPath,
     pub amount: Uint128,
     pub path2: VaultPath,
+    /// partial updates (None = field left out of the message) applied one after the other before
+    /// the switches are brought to `flags`, itself by a partial update naming only what differs
+    #[serde(default)]
+    pub pre: Vec<[Option<bool>; 3]>,
 }
 
 fn vflag(p: VaultPath) -> usize {
@@ -460,6 +464,29 @@ fn vset(vw: &mut VaultWorld, f: [bool; 3]) -> Result<(), String> {
     .map(|_| ())
 }
 
+fn vupdate(vw: &mut VaultWorld, f: [Option<bool>; 3]) -> Result<(), String> {
+    vw.update(vault::UpdateConfigParams {
+        flash_loan_enabled: f[0],
+        deposit_enabled: f[1],
+        withdraw_enabled: f[2],
+        new_owner: None,
+        new_vault_fees: None,
+        new_fee_collector_addr: None,
+    })
+    .map(|_| ())
+}
+
+/// brings the switches from `cur` to `want` naming only the fields that differ
+fn vset_partial(vw: &mut VaultWorld, cur: [bool; 3], want: [bool; 3]) -> Result<(), String> {
+    let mut f = [None; 3];
+    for i in 0..3 {
+        if cur[i] != want[i] {
+            f[i] = Some(want[i]);
+        }
+    }
+    vupdate(vw, f)
+}
+
 fn vflags(vw: &VaultWorld) -> Result<[bool; 3], String> {
     let c = vw.config()?;
     Ok([c.flash_loan_enabled, c.deposit_enabled, c.withdraw_enabled])
@@ -473,17 +500,27 @@ impl Check for VaultToggles {
         "vault_pause_switches"
     }
     fn rule(&self) -> &'static str {
-        "vault over a native or cw20 asset x all 8 combinations of (flash loans, deposits, withdrawals) set through the vault factory x entry paths {Deposit, cw20 Send{Withdraw} of the LP token, FlashLoan directly (borrower contract repaying exactly), FlashLoan through the vault router} x {empty, funded}; full product as regression corpus plus random amounts. Same differential oracle against an identically built twin with everything enabled; a fresh vault reports all switches on."
+        "vault over a native or cw20 asset x all 8 combinations of (flash loans, deposits, withdrawals) reached through sequences of partial UpdateConfig messages (each switch named or left out; after every message the stored switches must equal the named fields applied to the previous state) x entry paths {Deposit, cw20 Send{Withdraw} of the LP token, FlashLoan directly (borrower contract repaying exactly), FlashLoan through the vault router} x {empty, funded}; full product as regression corpus plus random amounts. Same differential oracle against an identically built twin with everything enabled; a fresh vault reports all switches on."
     }
     fn strategy(&self, _tier: Tier) -> BoxedStrategy<VaultCase> {
-        (any::<bool>(), any::<[bool; 3]>(), any::<bool>(), 0usize..4, gen::log_uniform(1, 1u128 << 40), 0usize..4)
-            .prop_map(|(cw20, flags, funded, p, amount, p2)| VaultCase {
+        let ob = || prop_oneof![2 => Just(None), 1 => Just(Some(false)), 1 => Just(Some(true))];
+        (
+            any::<bool>(),
+            any::<[bool; 3]>(),
+            any::<bool>(),
+            0usize..4,
+            gen::log_uniform(1, 1u128 << 40),
+            0usize..4,
+            proptest::collection::vec([ob(), ob(), ob()], 0..4),
+        )
+            .prop_map(|(cw20, flags, funded, p, amount, p2, pre)| VaultCase {
                 cw20,
                 flags,
                 funded,
                 path: VAULT_PATHS[p],
                 amount: Uint128::new(amount),
                 path2: VAULT_PATHS[p2],
+                pre,
             })
             .boxed()
     }
@@ -503,7 +540,24 @@ impl Check for VaultToggles {
                             path: *p,
                             amount: Uint128::new(1_000_000),
                             path2: VAULT_PATHS[(i + 1) % 4],
+                            pre: vec![],
                         });
+                        if !funded {
+                            // every single-switch pause first, then the target by a partial update
+                            for k in 0..3 {
+                                let mut one = [None; 3];
+                                one[k] = Some(false);
+                                out.push(VaultCase {
+                                    cw20,
+                                    flags: [f & 1 != 0, f & 2 != 0, f & 4 != 0],
+                                    funded: true,
+                                    path: *p,
+                                    amount: Uint128::new(1_000_000),
+                                    path2: VAULT_PATHS[(i + 1) % 4],
+                                    pre: vec![one, [None; 3]],
+                                });
+                            }
+                        }
                     }
                 }
             }
@@ -526,8 +580,24 @@ impl Check for VaultToggles {
                 w.deposit(&u1, 5_000_000).map_err(|e| Fail::new(format!("funding failed: {e}")))?;
             }
         }
-        vset(&mut a, c.flags).map_err(|e| Fail::new(format!("setting switches through the factory failed: {e}")))?;
-        ensure!(vflags(&a).map_err(Fail::new)? == c.flags, "switches were not stored");
+        let mut model = [true, true, true];
+        for (k, upd) in c.pre.iter().enumerate() {
+            vupdate(&mut a, *upd).map_err(|e| Fail::new(format!("partial update {k} {upd:?} failed: {e}")))?;
+            for i in 0..3 {
+                if let Some(v) = upd[i] {
+                    model[i] = v;
+                }
+            }
+            rec.class("partial_update");
+            let got = vflags(&a).map_err(Fail::new)?;
+            ensure!(
+                got == model,
+                "after partial update {k} {upd:?} (fields l/d/w, None = not named) the vault reports switches {got:?}, named fields give {model:?}"
+            );
+        }
+        vset_partial(&mut a, model, c.flags).map_err(|e| Fail::new(format!("setting switches failed: {e}")))?;
+        let got = vflags(&a).map_err(Fail::new)?;
+        ensure!(got == c.flags, "switches were not stored: brought {model:?} to {:?} naming only what differs, the vault reports {got:?}", c.flags);
         if c.flags != [true, true, true] {
             rec.nontrivial(hash_of(c));
             rec.sample(c);
@@ -541,7 +611,8 @@ impl Check for VaultToggles {
             rec.class("disabled_path_exercised");
             ensure!(ra.is_err(), "vault {:?} succeeded although its switch is off (flags l/d/w = {:?})", c.path, c.flags);
             ensure!(vobserve(&a) == oa, "disabled vault {:?} moved funds: {:?} -> {:?}", c.path, oa, vobserve(&a));
-            vset(&mut a, [true, true, true]).map_err(Fail::new)?;
+            vset_partial(&mut a, c.flags, [true, true, true]).map_err(Fail::new)?;
+            ensure!(vflags(&a).map_err(Fail::new)? == [true, true, true], "re-enabling by a partial update did not restore all switches");
             let r = vrun(&mut a, c.path, amount);
             ensure!(r.is_ok() == rb.is_ok(), "after re-enabling, vault {:?} behaves differently from the twin", c.path);
         } else {
@@ -559,7 +630,8 @@ impl Check for VaultToggles {
             let da: Vec<i128> = vobserve(&a).iter().zip(oa.iter()).map(|(x, y)| *x as i128 - *y as i128).collect();
             let db: Vec<i128> = vobserve(&b).iter().zip(ob.iter()).map(|(x, y)| *x as i128 - *y as i128).collect();
             ensure!(da == db, "vault {:?} with flags {:?} moved balances differently from the twin: {da:?} vs {db:?}", c.path, c.flags);
-            vset(&mut a, [true, true, true]).map_err(Fail::new)?;
+            vset_partial(&mut a, c.flags, [true, true, true]).map_err(Fail::new)?;
+            ensure!(vflags(&a).map_err(Fail::new)? == [true, true, true], "re-enabling by a partial update did not restore all switches");
         }
         ensure!(vobserve(&a) == vobserve(&b), "after re-enabling the vault state differs from the twin");
         let ra = vrun(&mut a, c.path2, amount / 2 + 1);
